@@ -882,6 +882,13 @@ class EmitAnalysis:
             return UNK
         if isinstance(e.func, ast.Attribute) and norm(e.func.value) == "self" and e.func.attr in LOOKUPS:
             return LOOKUP(LOOKUPS[e.func.attr])
+        if fn == "self._emit_jump" and (len(e.args) > 1 or any(k.arg == "target" for k in e.keywords)):
+            # a jump whose target is already known (a loop's back edge): the same as _emit(op, target)
+            tgt_expr = e.args[1] if len(e.args) > 1 else next(k.value for k in e.keywords if k.arg == "target")
+            e2 = ast.Call(func=ast.Attribute(value=ast.Name(id="self", ctx=ast.Load()), attr="_emit", ctx=ast.Load()), args=[e.args[0], tgt_expr], keywords=[])
+            ast.copy_location(e2, e)
+            e2.func.lineno = e.lineno  # type: ignore[attr-defined]
+            return self._call(e2, st) if hasattr(self, "_call") else self.ev(e2, st)
         if fn == "self._emit_jump":
             m = self.ev(e.args[0], st) if e.args else UNK
             if not isinstance(m, OPSET) or len(m.names) != 1:
